@@ -422,7 +422,7 @@ func (g *Gen) layers(f func() string) string {
 // N16: in a background-position list a 3/4-value layer after the first one makes the minifier
 // delete a zero from an earlier layer; by default such layers only come first.
 func (g *Gen) vBgPositionList() string {
-	if g.known {
+	if true { // (N16 = K95 repaired: 3 / 4-value layers anywhere in the list)
 		return g.layers(g.vBgPosition)
 	}
 	first := true
